@@ -23,9 +23,9 @@ def main():
     try:
         root = os.path.join(scratch, "repo")
         os.makedirs(root)
-        subprocess.run(["rsync", "-a", "--exclude", "target", "--exclude", ".git", "--exclude", "test_data", "/repo/crates", "/repo/Cargo.toml", "/repo/Cargo.lock", root + "/"], check=True)
+        subprocess.run(["rsync", "-a", "--exclude", "target", "--exclude", ".git", "--exclude", "test_data", "/repo/crates", "/repo/Cargo.toml", "/repo/Cargo.lock", "/repo/examples", root + "/"], check=True)
         ev = os.path.join(scratch, "evidence")
-        env = dict(os.environ, VERIF_REPO=root, VERIF_EVIDENCE_DIR=ev, VERIF_CACHE=os.path.join(scratch, "cache"), VERIF_SHAPE_ONLY="1")
+        env = dict(os.environ, VERIF_REPO=root, VERIF_EVIDENCE_DIR=ev, VERIF_CACHE=os.path.join(scratch, "cache"), VERIF_FLOW_TARGET=os.path.join(VERIF, ".cache", "flow-target"))
         for m in muts:
             path = os.path.join(root, m["file"])
             orig = open(path).read()
